@@ -2,6 +2,7 @@ use crate::myc;
 use crate::{StatementData, Value};
 use std::collections::HashMap;
 use std::convert::TryFrom;
+use std::io;
 
 /// A `ParamParser` decodes query parameters included in a client's `EXECUTE` command given
 /// type information for the expected parameters.
@@ -16,13 +17,26 @@ pub struct ParamParser<'a> {
 }
 
 impl<'a> ParamParser<'a> {
-    pub(crate) fn new(input: &'a [u8], stmt: &'a mut StatementData) -> Self {
-        ParamParser {
+    pub(crate) fn new(input: &'a [u8], stmt: &'a mut StatementData) -> io::Result<Self> {
+        // `Iterator::next` has no way to report a malformed parameter block,
+        // so decode it once up front and refuse the command if that fails.
+        let mut bound_types = stmt.bound_types.clone();
+        let mut dry_run = Params {
+            params: stmt.params,
+            input,
+            nullmap: None,
+            col: 0,
+            long_data: &stmt.long_data,
+            bound_types: &mut bound_types,
+        };
+        while dry_run.try_next()?.is_some() {}
+
+        Ok(ParamParser {
             params: stmt.params,
             bytes: input,
             long_data: &stmt.long_data,
             bound_types: &mut stmt.bound_types,
-        }
+        })
     }
 }
 
@@ -59,11 +73,17 @@ pub struct ParamValue<'a> {
     pub coltype: myc::constants::ColumnType,
 }
 
-impl<'a> Iterator for Params<'a> {
-    type Item = ParamValue<'a>;
-    fn next(&mut self) -> Option<Self::Item> {
+impl<'a> Params<'a> {
+    /// Decode the next parameter, or say why the parameter block cannot be decoded.
+    fn try_next(&mut self) -> io::Result<Option<ParamValue<'a>>> {
         if self.nullmap.is_none() {
             let nullmap_len = (self.params as usize + 7) / 8;
+            if self.input.len() < nullmap_len {
+                return Err(io::Error::new(
+                    io::ErrorKind::UnexpectedEof,
+                    "parameter block is shorter than its NULL bitmap",
+                ));
+            }
             let (nullmap, rest) = self.input.split_at(nullmap_len);
             self.nullmap = Some(nullmap);
             self.input = rest;
@@ -73,13 +93,22 @@ impl<'a> Iterator for Params<'a> {
                 // but the flag byte itself still precedes the values
                 self.input = &rest[1..];
             } else if !rest.is_empty() {
+                if rest.len() - 1 < 2 * self.params as usize {
+                    return Err(io::Error::new(
+                        io::ErrorKind::UnexpectedEof,
+                        "parameter block is shorter than its type table",
+                    ));
+                }
                 let (typmap, rest) = rest[1..].split_at(2 * self.params as usize);
                 self.bound_types.clear();
                 for i in 0..self.params as usize {
                     self.bound_types.push((
-                        myc::constants::ColumnType::try_from(typmap[2 * i]).unwrap_or_else(|e| {
-                            panic!("bad column type 0x{:x}: {}", typmap[2 * i], e)
-                        }),
+                        myc::constants::ColumnType::try_from(typmap[2 * i]).map_err(|e| {
+                            io::Error::new(
+                                io::ErrorKind::InvalidData,
+                                format!("bad column type 0x{:x}: {}", typmap[2 * i], e),
+                            )
+                        })?,
                         (typmap[2 * i + 1] & 128) != 0,
                     ));
                 }
@@ -88,9 +117,14 @@ impl<'a> Iterator for Params<'a> {
         }
 
         if self.col >= self.params {
-            return None;
+            return Ok(None);
         }
-        let pt = &self.bound_types[self.col as usize];
+        let pt = *self.bound_types.get(self.col as usize).ok_or_else(|| {
+            io::Error::new(
+                io::ErrorKind::InvalidData,
+                "no type was ever bound for this parameter",
+            )
+        })?;
 
         // https://web.archive.org/web/20170404144156/https://dev.mysql.com/doc/internals/en/null-bitmap.html
         // NULL-bitmap-byte = ((field-pos + offset) / 8)
@@ -98,14 +132,14 @@ impl<'a> Iterator for Params<'a> {
         if let Some(nullmap) = self.nullmap {
             let byte = self.col as usize / 8;
             if byte >= nullmap.len() {
-                return None;
+                return Ok(None);
             }
             if (nullmap[byte] & 1u8 << (self.col % 8)) != 0 {
                 self.col += 1;
-                return Some(ParamValue {
+                return Ok(Some(ParamValue {
                     value: Value::null(),
                     coltype: pt.0,
-                });
+                }));
             }
         } else {
             unreachable!();
@@ -114,12 +148,20 @@ impl<'a> Iterator for Params<'a> {
         let v = if let Some(data) = self.long_data.get(&self.col) {
             Value::bytes(&data[..])
         } else {
-            Value::parse_from(&mut self.input, pt.0, pt.1).unwrap()
+            Value::parse_from(&mut self.input, pt.0, pt.1)?
         };
         self.col += 1;
-        Some(ParamValue {
+        Ok(Some(ParamValue {
             value: v,
             coltype: pt.0,
-        })
+        }))
+    }
+}
+
+impl<'a> Iterator for Params<'a> {
+    type Item = ParamValue<'a>;
+    fn next(&mut self) -> Option<Self::Item> {
+        self.try_next()
+            .expect("the parameter block was checked when the command was received")
     }
 }
